@@ -264,3 +264,46 @@ Example C06_example_table :
   plural_forms (Some (s_ [103; 97])) = Some 5 /\
   plural_forms (Some (s_ [101; 110; 45; 85; 83])) = Some 2 /\ plural_forms None = None.
 Proof. vm_compute. repeat split; reflexivity. Qed.
+
+(* ---- plain inputs: the checker is silent ------------------------------------------------
+   [plain_in c] (Model/CheckPlain.v) =
+     negb (mem_N 37 (ref_val c))      the reference value has no per cent sign
+     && negb (mem_N 65533 (l10n_all c))   the localized entity's text has no U+FFFD
+     && negb (mem_N 92 (l10n_raw c))      its raw value has no backslash
+     && is_plural c = Ok false             the plural branch is not selected
+   (the localized value is not constrained: without reference arguments checkPrintf is not
+   called).  This is the silence that the end-to-end theorems of the comparison and of the
+   linter assume of their checker parameter; Properties/C03.v and Properties/C19.v instantiate
+   the parameter with this model (C03_end_to_end_properties_checked,
+   C19_end_to_end_properties_checked; adapters props_chk / props_lint_chk of
+   Model/CheckPlain.v, lemmas in Proofs/E2EChecked.v). *)
+From CL Require Import Model.CheckPlain Proofs.CheckSilentProofs.
+
+Theorem C06_check_plain_silent : forall c, plain_in c = true -> check c = Ok [].
+Proof. exact check_plain_silent. Qed.
+
+(* lint: an entity against itself *)
+Theorem C06_check_plain_silent_self : forall comment key all val raw locale,
+  mem_N c_pct val = false -> mem_N c_fffd all = false -> mem_N c_backslash raw = false ->
+  match comment with Some a => contains lit_plural_comment a = false | None => True end ->
+  check (self_in comment key all val raw locale) = Ok [].
+Proof. exact check_plain_silent_self. Qed.
+
+(* a value without a per cent sign has no printf arguments *)
+Theorem C06_specs_pct_free : forall v, mem_N c_pct v = false -> get_printf_specs v = Ok (SOk []).
+Proof. exact specs_pct_free. Qed.
+
+(* ways not to be selected for the plural branch *)
+Theorem C06_not_plural : forall c,
+  (ref_comment c = None -> is_plural c = Ok false) /\
+  (forall all, ref_comment c = Some all -> contains lit_plural_comment all = false ->
+               is_plural c = Ok false).
+Proof. intros c. split; [apply not_plural_no_comment|apply not_plural_no_marker]. Qed.
+
+(* "Save file" against "Datei speichern": plain, and silent *)
+Example C06_example_plain :
+  let c := mkin None (s_ [107]) (s_ [83; 97; 118; 101; 32; 102; 105; 108; 101]) (s_ [107])
+                (s_ [107; 32; 61; 32; 68; 97; 116; 101; 105]) (s_ [68; 97; 116; 101; 105])
+                (s_ [68; 97; 116; 101; 105]) None in
+  plain_in c = true /\ check c = Ok [].
+Proof. vm_compute. split; reflexivity. Qed.
